@@ -42,7 +42,6 @@ func C09(c *Ctx) {
 	c09Entrypoints(c, g)
 }
 
-
 // cloneOwnership decides the clone-before-mutate rule under the given rule id, for all kinds or only the listed ones.
 // A type is "mutated in place" when the optimizer visitors or the builder store to one of its fields.
 func cloneOwnership(c *Ctx, rule string, only map[string]bool) {
